@@ -333,4 +333,23 @@ theorem mgrFlush_lane (P : Params) (f : D → Bytes → D) (m : M D) (j : Cid) (
   · left; exact h
   · exact retireMin_lane f _ m j h
 
+/-! the number of lanes never changes -/
+theorem retireMin_slots_len (f : D → Bytes → D) (all : Bool) (m : M D) :
+    (retireMin f all m).1.slots.length = m.slots.length := by
+  rw [retireMin_eq]; split <;> simp [retire]
+
+theorem mgrSubmit_slots_len (f : D → Bytes → D) (m : M D) (c : Cid) (bs) :
+    (mgrSubmit f m c bs).1.slots.length = m.slots.length := by
+  unfold mgrSubmit; split
+  · rfl
+  · split
+    · rw [retireMin_slots_len]; simp [placed]
+    · simp [placed]
+
+theorem mgrFlush_slots_len (P : Params) (f : D → Bytes → D) (m : M D) :
+    (mgrFlush P f m).1.slots.length = m.slots.length := by
+  unfold mgrFlush; simp only []; split
+  · rfl
+  · exact retireMin_slots_len f _ m
+
 end IsalVerif.HashMB
